@@ -257,38 +257,42 @@ Theorem C08_linearizable_partial :
 Proof. exact atomic_sections_linearizable. Qed.
 Print Assumptions C08_linearizable_partial.
 
-(* what any history that passes the check guarantees, in the words of the property *)
+(* what any history that passes the check guarantees, in the words of the property.  Blocks are ids;
+   [mhkey i] identifies the multihash of block i (different ids can carry one multihash under different
+   codecs / CID versions, and equal digest bytes under different hash codes are different multihashes:
+   the key families of RunConc.v); the stores de-duplicate by multihash. *)
 Theorem C08_put_returned_then_has_finds_it :
   forall (store : N) (v1 : bool) (ops : list cop) (hist : list (N * N)) (results : list cres) (w : list nat),
     lin_check store v1 ops hist results w = true ->
-    forall a b k r,
+    forall a b k k' r,
       (a < List.length ops)%nat -> (b < List.length ops)%nat ->
       is_put (nth_op ops a) -> In k (c_ids (nth_op ops a)) -> nth a results RNone = ROk ->
-      c_kind (nth_op ops b) = 2%N -> first_id (nth_op ops b) = k -> nth b results RNone = RNum r ->
+      c_kind (nth_op ops b) = 2%N -> first_id (nth_op ops b) = k' -> mhkey k' = mhkey k ->
+      nth b results RNone = RNum r ->
       (h_ret hist a < h_inv hist b)%N ->
       r = 1%N.
 Proof. exact lin_put_then_has. Qed.
 Print Assumptions C08_put_returned_then_has_finds_it.
 
-Theorem C08_get_returns_the_block_that_was_put :
+Theorem C08_get_returns_a_block_that_was_put_under_that_multihash :
   forall (store : N) (v1 : bool) (ops : list cop) (hist : list (N * N)) (results : list cres) (w : list nat),
     lin_check store v1 ops hist results w = true ->
     forall b x,
       (b < List.length ops)%nat -> c_kind (nth_op ops b) = 3%N -> nth b results RNone = RNum x ->
-      x = first_id (nth_op ops b) /\
+      mhkey x = mhkey (first_id (nth_op ops b)) /\
       exists a, (a < List.length ops)%nat /\ is_put (nth_op ops a) /\ In x (c_ids (nth_op ops a)) /\
                 ~ (h_ret hist b < h_inv hist a)%N.
 Proof. exact lin_get_exact. Qed.
-Print Assumptions C08_get_returns_the_block_that_was_put.
+Print Assumptions C08_get_returns_a_block_that_was_put_under_that_multihash.
 
 Theorem C08_has_reports_nothing_that_was_never_put :
   forall (store : N) (v1 : bool) (ops : list cop) (hist : list (N * N)) (results : list cres) (w : list nat),
     lin_check store v1 ops hist results w = true ->
     forall b,
       (b < List.length ops)%nat -> c_kind (nth_op ops b) = 2%N -> nth b results RNone = RNum 1%N ->
-      exists a, (a < List.length ops)%nat /\ is_put (nth_op ops a) /\
-                In (first_id (nth_op ops b)) (c_ids (nth_op ops a)) /\
-                ~ (h_ret hist b < h_inv hist a)%N.
+      exists a x, (a < List.length ops)%nat /\ is_put (nth_op ops a) /\ In x (c_ids (nth_op ops a)) /\
+                  mhkey x = mhkey (first_id (nth_op ops b)) /\
+                  ~ (h_ret hist b < h_inv hist a)%N.
 Proof. exact lin_has_only_put. Qed.
 Print Assumptions C08_has_reports_nothing_that_was_never_put.
 
